@@ -143,6 +143,65 @@ enum Target {
 }
 
 static F32_MODE: std::sync::atomic::AtomicBool = std::sync::atomic::AtomicBool::new(false);
+/// 0 = ordinary data; k > 0 = the k-th family of degenerate-but-finite data (entry "degenerate")
+static DEGEN: std::sync::atomic::AtomicUsize = std::sync::atomic::AtomicUsize::new(0);
+fn degen() -> usize {
+    DEGEN.load(std::sync::atomic::Ordering::Relaxed)
+}
+const DEGEN_FAMILIES: [&str; 7] = ["", "two-distinct-rows(duplicates)", "all-rows-identical", "constant-column", "collinear-columns(rank-deficient)", "constant-target/single-class", "duplicates+constant-column"];
+
+/// Finite data on which a fit can leave non-finite or degenerate state behind: duplicated rows (k-means with
+/// more clusters than distinct rows, zero distances), a constant column (zero variance, rescaling), collinear
+/// columns (rank deficiency), a constant target / a single class.
+fn make_degenerate(rng: &mut Rng, d: &mut Data, fam: usize) {
+    let n = d.x.len();
+    let p = d.x.first().map(|r| r.len()).unwrap_or(0);
+    if n == 0 || p == 0 {
+        return;
+    }
+    let dup = |d: &mut Data, m: usize| {
+        for i in m..n {
+            d.x[i] = d.x[i % m].clone();
+        }
+    };
+    let constant_col = |rng: &mut Rng, d: &mut Data| {
+        let j = rng.below(p);
+        let v = d.x[0][j];
+        for r in d.x.iter_mut().chain(d.q.iter_mut()) {
+            r[j] = v;
+        }
+    };
+    match fam {
+        1 => dup(d, 2.min(n)),
+        2 => dup(d, 1),
+        3 => constant_col(rng, d),
+        4 => {
+            if p >= 2 {
+                let (a, b) = (0, rng.usize_in(1, p - 1));
+                let f = if d.feat == Feat::Cont { *rng.pick(&[1.0, 2.0, -1.0]) } else { 1.0 };
+                for r in d.x.iter_mut().chain(d.q.iter_mut()) {
+                    r[b] = f * r[a];
+                }
+            } else {
+                constant_col(rng, d);
+            }
+        }
+        5 => {
+            if !d.y.is_empty() {
+                let v = d.y[0];
+                for y in d.y.iter_mut() {
+                    *y = v;
+                }
+            } else {
+                dup(d, 2.min(n));
+            }
+        }
+        _ => {
+            dup(d, 3.min(n));
+            constant_col(rng, d);
+        }
+    }
+}
 
 struct Gen {
     style: usize,
@@ -234,7 +293,12 @@ fn gen_data(rng: &mut Rng, n: usize, p: usize, feat: Feat, target: Target, cont_
     if feat == Feat::Cont {
         q.push(gen_row(rng, p, feat, &g).iter().map(|v| v * 50.0 + 7.0).collect());
     }
-    (Data { x: x1, y: y1, q: q.clone(), feat, target }, Data { x: x2, y: y2, q, feat, target })
+    let (mut d1, mut d2) = (Data { x: x1, y: y1, q: q.clone(), feat, target }, Data { x: x2, y: y2, q, feat, target });
+    if degen() > 0 {
+        make_degenerate(rng, &mut d1, degen());
+        make_degenerate(rng, &mut d2, degen());
+    }
+    (d1, d2)
 }
 
 // ------------------------------------------------------------------------------------------
@@ -263,9 +327,31 @@ pub struct Case<'a> {
     pub input: Value,
     pub f32m: bool,
     pub mode: Mode,
+    /// the object under test holds NaN / inf although it was fitted on finite data
+    pub nonfinite: bool,
+}
+/// (type, equality clause) pairs that the CURRENT tree violates on models with non-finite stored state fitted on
+/// finite data (reported to the coordinator, undecided): counted as `observed:<type>:nonfinite-state:<clause>`.
+/// Everything else about such models - in particular the same clauses for every other type - is a failure.
+fn nonfinite_observed(tname: &str, oracle: &str) -> bool {
+    // RidgeRegression: `==` ends with `(self.intercept - other.intercept).abs() <= eps`, false when the intercept is
+    // NaN (seen: normalize = true on a column of equal values whose computed std is a rounding residue, e.g. three
+    // rows 0.1: not rejected as constant, coefficients and intercept NaN): the model != itself / its copy / a refit
+    // MultinomialNB: derived `==` on the log-probability table; alpha = 0 and a class whose rows are all zero give
+    // ln(0/0) = NaN, and NaN != NaN
+    matches!(tname, "RidgeRegression" | "MultinomialNB") && matches!(oracle, "self_equality" | "bincode_restored_equal" | "refit_equal")
 }
 impl<'a> Case<'a> {
     fn fail(&mut self, oracle: &str, what: &str) {
+        if self.nonfinite && nonfinite_observed(&self.tname, oracle) {
+            let k = format!("observed:{}:nonfinite-state:{}", self.tname, oracle);
+            self.out.count(&k);
+            return;
+        }
+        if self.nonfinite {
+            let k = format!("fail-detail:nonfinite-state:{}:{}", self.tname, oracle);
+            self.out.count(&k);
+        }
         let w = format!("{}{}: {}", self.tname, if self.f32m { "<f32>" } else { "<f64>" }, what);
         self.out.fail(oracle, &w, self.input.clone());
     }
@@ -302,13 +388,15 @@ where
 {
     c.count("search:type");
     let dbg0 = format!("{:?}", m);
-    // A fit on finite data that returns Ok with NaN / inf inside the model (seen: f32 L-BFGS) is a defect of
-    // the fit, not of the serialisation: the tolerance relations are degenerate on NaN and JSON has no
-    // notation for it.  Such objects get the binary clauses only (bits must survive) and are counted.
+    // A fit on finite data may return Ok with NaN / inf inside the model (an empty k-means cluster, ln 0 in a
+    // naive Bayes table without smoothing, f32 L-BFGS).  Such models are in scope: they must equal themselves,
+    // their bincode copy (both ways, identical predictions, identical bytes) and a refit.  JSON has no notation
+    // for NaN / inf (serde_json writes null and cannot read it back): counted observation, reported.
     let nonfinite = dbg0.contains("NaN") || dbg0.contains("inf");
-    let eq: EqFn<M> = if nonfinite { None } else { eq };
+    let was = c.nonfinite;
+    c.nonfinite = nonfinite;
     if nonfinite {
-        c.count("observe:nonfinite-state-after-fit(binary-clauses-only)");
+        c.count("search:nonfinite-state-after-fit-on-finite-data");
     }
     // a model equals itself
     eq_checked(c, eq, m, m, "self_equality", "model != itself", true);
@@ -360,7 +448,8 @@ where
             Ok(Err(e)) => {
                 if nonfinite {
                     // serde_json writes NaN / inf as null, which cannot be read back
-                    c.count("observe:json-of-nonfinite-state-not-restorable");
+                    let k = format!("observed:{}:nonfinite-state:json-not-restorable(serde_json-writes-null)", c.tname);
+                    c.out.count(&k);
                 } else {
                     c.fail("json_deserialise", &format!("serde_json::from_str of the model's own JSON: {}", e));
                 }
@@ -419,6 +508,7 @@ where
             Err(p) => c.fail("serialise_never_fails", &format!("serde_json::to_value panicked: {}", p)),
         }
     }
+    c.nonfinite = was;
     !nonfinite
 }
 
@@ -455,9 +545,8 @@ where
     if std::env::var("C19_DUMP").is_ok() {
         eprintln!("DUMP {} {}", c.tname, serde_json::to_string(&m).unwrap_or_default());
     }
-    if !check_roundtrip(c, &m, eq, &|mm: &M| obs(mm, d)) {
-        return None;
-    }
+    let finite = check_roundtrip(c, &m, eq, &|mm: &M| obs(mm, d));
+    c.nonfinite = !finite;
     // second fit on the same data
     if let Ok(Ok(m2)) = fit_guarded(&fit, d) {
         if deterministic {
@@ -471,6 +560,12 @@ where
         } else {
             c.count("search:refit-skipped(unseeded-randomness)");
         }
+    }
+    c.nonfinite = false;
+    if !finite {
+        // NaN makes a tolerance relation agree with anything: the inequality clauses are not judged on such models
+        c.count("search:nonfinite-state(inequality-clauses-skipped)");
+        return None;
     }
     // fit on different rows and targets
     if let Ok(Ok(m3)) = fit_guarded(&fit, d2) {
@@ -504,6 +599,8 @@ where
                             eprintln!("PAIRDATA {}", json!({"a": {"x": d.x, "y": d.y}, "b": {"x": d2.x, "y": d2.y}, "queries": d.q}));
                         }
                         known_eps(c, "different-rows-and-targets");
+                    } else if let Some(why) = data_changed_observed(&c.tname, &serde_json::to_value(&m).unwrap_or(Value::Null), &serde_json::to_value(&m3).unwrap_or(Value::Null)) {
+                        c.out.count(&format!("observed:{}:different-rows-and-targets:equal-but-predict-differently({})", c.tname, why));
                     } else {
                         if std::env::var("C19_DUMP_PAIR").is_ok() {
                             eprintln!("PAIR {}\nA {}\nB {}\nOA {:?}\nOB {:?}", c.tname, serde_json::to_string(&m).unwrap_or_default(), serde_json::to_string(&m3).unwrap_or_default(), oa, ob);
@@ -816,6 +913,18 @@ fn tolerance_blind_spot<M: Serialize>(c: &Case, a: &M, b: &M) -> bool {
     }
 }
 
+/// DATA changed, equal although predicting differently, on the CURRENT tree, outside the listed findings (reported to
+/// the coordinator, undecided; counted as `observed:<type>:<relation>:...`): PCA's `==` looks at the eigenvectors and
+/// eigenvalues only, so two data sets with the same covariance and different means (seen: two different constant
+/// tables, covariance 0) give equal models whose transforms differ by the centring.
+fn data_changed_observed(tname: &str, a: &Value, b: &Value) -> Option<&'static str> {
+    // (the caller has seen `==` true both ways: eigenvectors and eigenvalues agree under the relation's tolerance)
+    match tname {
+        "PCA" if a["mu"].is_array() && a["mu"] != b["mu"] => Some("same-eigenvectors-and-eigenvalues;mu-not-compared"),
+        _ => None,
+    }
+}
+
 /// Same rows and targets, another parameter value, equal although predicting differently: which part of the state
 /// the relation does not look at (a label for the counted observation; such pairs are outside the clause about
 /// different rows and targets, so nothing here decides pass / fail).
@@ -926,6 +1035,8 @@ where
                 } else if tolerance_blind_spot(c, m, &mv) {
                     // the listed finding: different rows / targets, all floating-point state within the absolute tolerance
                     known_eps(c, &relkey);
+                } else if let Some(why) = data_changed_observed(&c.tname, &sa, &sb) {
+                    c.out.count(&format!("observed:{}:{}:equal-but-predict-differently({})", c.tname, relkey, why));
                 } else {
                     c.out.count(&format!("fail-detail:related_data_unequal:{}:{}", c.tname, relkey));
                     c.fail(
@@ -1079,7 +1190,10 @@ fn case_linear<T: Num>(c: &mut Case, rng: &mut Rng, which: usize) {
             );
         }
         1 => {
-            let alpha = *rng.pick(&[0.01, 0.5, 1.0, 10.0]);
+            let mut alpha = *rng.pick(&[0.01, 0.5, 1.0, 10.0]);
+            if degen() > 0 && rng.chance(0.4) {
+                alpha = 0.0;
+            }
             let chol = rng.bool();
             let norm = rng.bool();
             c.input["params"] = json!(format!("alpha={} cholesky={} normalize={}", alpha, chol, norm));
@@ -1305,10 +1419,15 @@ where
 }
 
 /// the distance families: which = 0..5; in Sweep mode every family is visited
-fn distance_choices(c: &Case, rng: &mut Rng) -> Vec<usize> {
+fn distance_choices(c: &mut Case, rng: &mut Rng) -> Vec<usize> {
     let w = rng.below(5);
     if c.mode == Mode::Sweep {
         (0..5).collect()
+    } else if degen() > 0 && w == 4 {
+        // Mahalanobis needs a non-singular covariance; on rank-deficient data the object is ill-defined (distinct
+        // points at distance 0: C17's matter).  Counted exclusion.
+        c.out.count("degenerate:mahalanobis-excluded(singular-covariance)");
+        vec![rng.below(4)]
     } else {
         vec![w]
     }
@@ -1494,7 +1613,10 @@ fn case_nb<T: Num>(c: &mut Case, rng: &mut Rng, which: usize) {
         _ => Feat::Cat,
     };
     let (d, d2) = gen_data(rng, n, p, feat, Target::Class(k), true, true);
-    let alpha = *rng.pick(&[0.5, 1.0, 2.0]);
+    let mut alpha = *rng.pick(&[0.5, 1.0, 2.0]);
+    if degen() > 0 && rng.chance(0.6) {
+        alpha = 0.0; // "0 for no smoothing": ln 0 = -inf for a (category, class) pair that never occurs
+    }
     let uniform: Vec<T> = (0..k).map(|_| t::<T>(1.0 / k as f64)).collect();
     let skewed: Vec<T> = (0..k).map(|i| t::<T>(if i == 0 { 1.0 - 0.125 * (k - 1) as f64 } else { 0.125 })).collect();
     let priors = rng.bool();
@@ -1815,7 +1937,10 @@ where
         })
         .collect();
     nn.sort_by(|a, b| a.partial_cmp(b).unwrap_or(std::cmp::Ordering::Equal));
-    let eps = (nn[n / 2] * *rng.pick(&[0.8, 1.5, 3.0])).max(1e-6);
+    let mut eps = (nn[n / 2] * *rng.pick(&[0.8, 1.5, 3.0])).max(1e-6);
+    if degen() > 0 && rng.chance(0.4) {
+        eps = 1e-9; // all noise (or clusters of exact duplicates only)
+    }
     let ms = rng.usize_in(1, 4);
     let cover = rng.bool();
     describe(c, d, &format!("distance={} eps={} min_samples={} cover_tree={}", dname, eps, ms, cover));
@@ -2213,17 +2338,31 @@ fn run_kind<T: Num + std::iter::Sum>(c: &mut Case, rng: &mut Rng, kind: &str) {
 /// entry "search": random parameters, all clauses incl. the related-data oracle;
 /// entry "sweep": every parameter variant of the kind through both formats.
 pub fn run_case(out: &mut Out, mode: Mode, kind: &str, case_seed: u64, width: Option<bool>) {
+    run_case_d(out, mode, kind, case_seed, width, false)
+}
+/// `degenerate`: entry "degenerate" = a search case on one of the degenerate-but-finite data families, with the
+/// parameter values that make the degeneracy bite (no smoothing, more clusters than distinct rows, tiny eps)
+pub fn run_case_d(out: &mut Out, mode: Mode, kind: &str, case_seed: u64, width: Option<bool>, degenerate: bool) {
     let mut rng = Rng::new(case_seed);
     let drawn = rng.chance(0.3);
     let f32m = width.unwrap_or(drawn);
     F32_MODE.store(f32m, std::sync::atomic::Ordering::Relaxed);
-    let input = json!({"entry": if mode == Mode::Sweep { "sweep" } else { "search" }, "kind": kind, "case_seed": case_seed.to_string(), "f32": f32m});
-    let mut c = Case { out, tname: kind.to_string(), input, f32m, mode };
+    let fam = if degenerate { rng.usize_in(1, DEGEN_FAMILIES.len() - 1) } else { 0 };
+    DEGEN.store(fam, std::sync::atomic::Ordering::Relaxed);
+    if degenerate {
+        out.count(&format!("degenerate:family:{}", DEGEN_FAMILIES[fam]));
+    }
+    let mut input = json!({"entry": if degenerate { "degenerate" } else if mode == Mode::Sweep { "sweep" } else { "search" }, "kind": kind, "case_seed": case_seed.to_string(), "f32": f32m});
+    if degenerate {
+        input["family"] = json!(DEGEN_FAMILIES[fam]);
+    }
+    let mut c = Case { out, tname: kind.to_string(), input, f32m, mode, nonfinite: false };
     if f32m {
         run_kind::<f32>(&mut c, &mut rng, kind);
     } else {
         run_kind::<f64>(&mut c, &mut rng, kind);
     }
+    DEGEN.store(0, std::sync::atomic::Ordering::Relaxed);
 }
 
 /// corpus / replay inputs that carry their data explicitly (independent of the generators)
@@ -2232,7 +2371,7 @@ fn run_explicit(out: &mut Out, inp: &Value) -> bool {
     let y = f64s_from_json(&inp["y"]);
     let q = rows_from_json(&inp["queries"]);
     let kind = inp["kind"].as_str().unwrap_or("").to_string();
-    let mut c = Case { out, tname: kind.clone(), input: inp.clone(), f32m: false, mode: Mode::Search };
+    let mut c = Case { out, tname: kind.clone(), input: inp.clone(), f32m: false, mode: Mode::Search, nonfinite: false };
     c.out.eval(hash_of(&inp.to_string()), true);
     match kind.as_str() {
         "BernoulliNB" => {
@@ -2260,6 +2399,9 @@ fn run_explicit(out: &mut Out, inp: &Value) -> bool {
                 if equal && differ && data_differ {
                     if tolerance_blind_spot(c, a, b) {
                         known_eps(c, "corpus-witness");
+                    } else if let Some(why) = data_changed_observed(&c.tname, &serde_json::to_value(a).unwrap_or(Value::Null), &serde_json::to_value(b).unwrap_or(Value::Null)) {
+                        let k = format!("observed:{}:corpus-witness:equal-but-predict-differently({})", c.tname, why);
+                        c.out.count(&k);
                     } else {
                         c.fail("different_data_unequal", "corpus pair: models fitted on different rows / targets compare equal although they predict differently, and not because of the absolute tolerance");
                     }
@@ -2277,6 +2419,26 @@ fn run_explicit(out: &mut Out, inp: &Value) -> bool {
                     let fit = |x: &Vec<Vec<f64>>, y: &Vec<f64>| LogisticRegression::fit(&mat::<f32>(x), &vect::<f32>(y), LogisticRegressionParameters::default().with_alpha(alpha));
                     match (guard(|| fit(&xa, &ya)), guard(|| fit(&xb, &yb))) {
                         (Ok(Ok(a)), Ok(Ok(b))) => judge(&mut c, &a, &b, &|m: &LogisticRegression<f32, DenseMatrix<f32>>| predict_obs(m.predict(&mat::<f32>(&q))), data_differ),
+                        _ => c.count("search:corpus-witness-fit-failed"),
+                    }
+                    true
+                }
+                "PCA<f64>" => {
+                    c.tname = "PCA".into();
+                    let k = inp["n_components"].as_u64().unwrap_or(1) as usize;
+                    let fit = |x: &Vec<Vec<f64>>| PCA::fit(&mat::<f64>(x), PCAParameters::default().with_n_components(k));
+                    match (guard(|| fit(&xa)), guard(|| fit(&xb))) {
+                        (Ok(Ok(a)), Ok(Ok(b))) => judge(
+                            &mut c,
+                            &a,
+                            &b,
+                            &|m: &PCA<f64, DenseMatrix<f64>>| {
+                                let mut o = vec![];
+                                push_mat(&mut o, m.transform(&mat::<f64>(&q)));
+                                o
+                            },
+                            data_differ,
+                        ),
                         _ => c.count("search:corpus-witness-fit-failed"),
                     }
                     true
@@ -2303,6 +2465,59 @@ fn run_explicit(out: &mut Out, inp: &Value) -> bool {
                 }
                 _ => false,
             }
+        }
+        // finite data, non-finite stored state: the model must still equal itself, its bincode copy and a refit
+        "KMeans" => {
+            c.tname = "KMeans".into();
+            let k = inp["k"].as_u64().unwrap_or(2) as usize;
+            match guard(|| KMeans::<f64>::fit(&mat::<f64>(&x), KMeansParameters::default().with_k(k))) {
+                Ok(Ok(m)) => {
+                    check_roundtrip(&mut c, &m, eq_of(), &|mm: &KMeans<f64>| predict_obs(mm.predict(&mat::<f64>(&q))));
+                }
+                _ => c.count("search:corpus-fit-failed"),
+            }
+            true
+        }
+        "CategoricalNB" => {
+            c.tname = "CategoricalNB".into();
+            let alpha = inp["alpha"].as_f64().unwrap_or(0.0);
+            let fit = || CategoricalNB::fit(&mat::<f64>(&x), &y, CategoricalNBParameters::default().with_alpha(alpha));
+            match (guard(fit), guard(fit)) {
+                (Ok(Ok(m)), Ok(Ok(m2))) => {
+                    let finite = check_roundtrip(&mut c, &m, eq_of(), &|mm: &CategoricalNB<f64, DenseMatrix<f64>>| predict_obs(mm.predict(&mat::<f64>(&q))));
+                    c.nonfinite = !finite;
+                    eq_checked(&mut c, eq_of(), &m, &m2, "refit_equal", "second fit on the same data != first fit", true);
+                    c.nonfinite = false;
+                }
+                _ => c.count("search:corpus-fit-failed"),
+            }
+            true
+        }
+        "MultinomialNB" => {
+            c.tname = "MultinomialNB".into();
+            let alpha = inp["alpha"].as_f64().unwrap_or(0.0);
+            match guard(|| MultinomialNB::fit(&mat::<f64>(&x), &y, MultinomialNBParameters::default().with_alpha(alpha))) {
+                Ok(Ok(m)) => {
+                    check_roundtrip(&mut c, &m, eq_of(), &|mm: &MultinomialNB<f64, DenseMatrix<f64>>| predict_obs(mm.predict(&mat::<f64>(&q))));
+                }
+                _ => c.count("search:corpus-fit-failed"),
+            }
+            true
+        }
+        "RidgeRegression" => {
+            c.tname = "RidgeRegression".into();
+            let pr = RidgeRegressionParameters::default()
+                .with_alpha(inp["alpha"].as_f64().unwrap_or(1.0))
+                .with_normalize(inp["normalize"].as_bool().unwrap_or(true))
+                .with_solver(if inp["cholesky"].as_bool().unwrap_or(true) { RidgeRegressionSolverName::Cholesky } else { RidgeRegressionSolverName::SVD });
+            match guard(|| RidgeRegression::fit(&mat::<f64>(&x), &y, pr.clone())) {
+                Ok(Ok(m)) => {
+                    check_roundtrip(&mut c, &m, eq_of(), &|mm: &RidgeRegression<f64, DenseMatrix<f64>>| predict_obs(mm.predict(&mat::<f64>(&q))));
+                }
+                Ok(Err(e)) => c.count(&format!("search:corpus-fit-error({})", e)),
+                _ => c.count("search:corpus-fit-failed"),
+            }
+            true
         }
         "KNNRegressor-prefix" => {
             c.tname = "KNNRegressor".into();
@@ -2347,13 +2562,13 @@ fn replay(path: &str) -> i32 {
     let inp = if v.get("input").is_some() { v["input"].clone() } else { v.clone() };
     let mut out = Out::new("C19", "replay");
     match inp["entry"].as_str().unwrap_or("") {
-        e @ ("search" | "sweep") => {
+        e @ ("search" | "sweep" | "degenerate") => {
             let kind = inp["kind"].as_str().unwrap_or("").to_string();
             let seed: u64 = inp["case_seed"].as_str().and_then(|s| s.parse().ok()).or_else(|| inp["case_seed"].as_u64()).unwrap_or(0);
             let mode = if e == "sweep" { Mode::Sweep } else { Mode::Search };
             // unseeded estimators (SVC, KMeans): repeat a few times
             for _ in 0..3 {
-                run_case(&mut out, mode, &kind, seed, inp["f32"].as_bool());
+                run_case_d(&mut out, mode, &kind, seed, inp["f32"].as_bool(), e == "degenerate");
             }
         }
         "explicit" => {
@@ -2411,6 +2626,22 @@ fn main() {
                 eprintln!("sweep {} {}", kind, cs);
             }
             run_case(&mut out, Mode::Sweep, kind, cs, Some(i % 2 == 1));
+        }
+    }
+
+    // ---- degenerate-but-finite data: every kind on every family (duplicates, constant / collinear columns,
+    //      constant target, single class) with the parameter values that make the degeneracy bite ----
+    let drounds = if a.thorough { 500 } else { 60 };
+    for _ in 0..drounds {
+        for kind in KINDS {
+            if *kind == "DenseMatrix" || *kind == "small-types" {
+                continue;
+            }
+            let cs = rng.next_u64();
+            if std::env::var("C19_TRACE").is_ok() {
+                eprintln!("degenerate {} {}", kind, cs);
+            }
+            run_case_d(&mut out, Mode::Search, kind, cs, None, true);
         }
     }
 
